@@ -677,15 +677,18 @@ def eval_c20(doc):
     return None, nontrivial, fired
 
 
-_DOCS, _PROP, _STATE = [], "", None
+_DOCS, _PROP = [], ""
 
-# Watchdog. A run that never returns (the planner spins without reading the clock, or allocates
-# without bound) must become a VIOLATION, not a check that never ends. Every scenario gets 120 s
-# of the worker's own CPU time (RLIMIT_CPU, re-armed per scenario: the kernel then terminates
-# the worker with SIGXCPU — wall time plays no role, so a stopped or starved process raises no
-# alarm) and 8 GB of address space (an allocation beyond that aborts the worker). The parent
-# notices the dead worker, and finds the culprit by re-running the scenarios that were in
-# flight, each alone in a child process under the same limits.
+# Isolation and watchdog. Every scenario is evaluated in a process of its own, forked from a
+# worker that has imported the extension but never called into it: state that outlives a planner
+# object (a process-global cache inside the extension, say) therefore cannot leak from one
+# scenario into the next, and the outcome of a scenario does not depend on which scenarios the
+# same worker happened to run before — the sweep and the replay see the same execution.
+# A run that never returns (the planner spins without reading the clock, or allocates without
+# bound) must become a VIOLATION, not a check that never ends: the child gets 120 s of its own
+# CPU time (RLIMIT_CPU; the kernel then terminates it with SIGXCPU — wall time plays no role, so
+# a stopped or starved process raises no alarm) and 8 GB of address space (an allocation beyond
+# that aborts it).
 HANG_CPU_S = 120
 MEM_LIMIT = 8 << 30
 
@@ -701,41 +704,49 @@ def _arm_limits():
         pass
 
 
-def _eval_doc(doc):
-    return (eval_c19 if doc.get("property", _PROP) == "C19" else eval_c20)(doc)
+def _isolated(fn):
+    """Runs fn() in a forked child under the watchdog limits. Returns ("ok", value),
+    ("error", text) for a Python exception, or ("died", text) if the child was terminated."""
+    import pickle
+    import signal
+    r, w = os.pipe()
+    pid = os.fork()
+    if pid == 0:
+        code = 0
+        try:
+            os.close(r)
+            _arm_limits()
+            try:
+                out = ("ok", fn())
+            except Exception as e:
+                out = ("error", f"{type(e).__name__}: {e}")
+            with os.fdopen(w, "wb") as f:
+                pickle.dump(out, f)
+        except BaseException:
+            code = 3
+        finally:
+            os._exit(code)
+    os.close(w)
+    with os.fdopen(r, "rb") as f:
+        data = f.read()
+    _, status = os.waitpid(pid, 0)
+    if os.WIFSIGNALED(status):
+        sig = os.WTERMSIG(status)
+        name = signal.Signals(sig).name if sig in signal.Signals._value2member_map_ else str(sig)
+        why = ("more than %d s of CPU time without returning" % HANG_CPU_S) if name == "SIGXCPU" else "allocation beyond the memory limit or a crash of the extension"
+        return ("died", f"the run was terminated by {name} ({why})")
+    try:
+        return pickle.loads(data)
+    except Exception as e:
+        return ("error", f"no result from the child process ({type(e).__name__}: {e}, exit status {status})")
 
 
 def _eval_one(i):
-    try:
-        if _STATE is not None:
-            _STATE[i] = 1
-        _arm_limits()
-        r, nt, aux = (eval_c19 if _PROP == "C19" else eval_c20)(_DOCS[i])
-        if _STATE is not None:
-            _STATE[i] = 2
+    out = _isolated(lambda: (eval_c19 if _PROP == "C19" else eval_c20)(_DOCS[i]))
+    if out[0] == "ok":
+        r, nt, aux = out[1]
         return ("ok", r, nt, aux)
-    except Exception as e:  # reported by the parent as a harness error (exit 2)
-        return ("error", f"{type(e).__name__}: {e}")
-
-
-def _dies_alone(fn):
-    """Runs fn() in a forked child under the watchdog limits; returns None if it returns
-    normally, else a description of how the child died."""
-    pid = os.fork()
-    if pid == 0:
-        try:
-            _arm_limits()
-            fn()
-            os._exit(0)
-        except BaseException:
-            os._exit(3)
-    _, status = os.waitpid(pid, 0)
-    if os.WIFSIGNALED(status):
-        import signal
-        sig = os.WTERMSIG(status)
-        name = signal.Signals(sig).name if sig in signal.Signals._value2member_map_ else str(sig)
-        return f"the run was terminated by {name} (" + ("more than %d s of CPU time without returning" % HANG_CPU_S if name == "SIGXCPU" else "allocation beyond the memory limit or a crash of the extension") + ")"
-    return None
+    return out
 
 
 def do_check(prop, tier):
@@ -759,27 +770,18 @@ def do_check(prop, tier):
     # extension and its own process-wide virtual clock) and merged in index order, so neither
     # the worker count nor the scheduling of the workers influences any reported number
     workers = int(os.environ.get("VERIF_WORKERS", "0")) or min(16, os.cpu_count() or 1)
-    global _DOCS, _PROP, _STATE
+    global _DOCS, _PROP
     _DOCS, _PROP = docs, prop
     import multiprocessing as mp
     from concurrent.futures import ProcessPoolExecutor
-    from concurrent.futures.process import BrokenProcessPool
-    _STATE = mp.Array("b", max(len(docs), 1), lock=False)
-    try:
-        with ProcessPoolExecutor(max_workers=max(workers, 1), mp_context=mp.get_context("fork")) as ex:
-            outcomes = list(ex.map(_eval_one, range(len(docs)), chunksize=8))
-    except BrokenProcessPool:
-        # a worker died: find the scenario that kills a process on its own
-        suspects = [i for i in range(len(docs)) if _STATE[i] == 1]
-        for i in suspects:
-            why = _dies_alone(lambda: (eval_c19 if prop == "C19" else eval_c20)(docs[i]))
-            if why is not None:
-                sig = f"{prop}/watchdog/{docs[i]['scenario']['planner']['kind']}"
-                path = write_replay(prop, sig, docs[i]["scenario"])
-                say(f"VIOLATION property={prop} replay={path} sig={sig} count=1 :: scenario {i}: {why}")
-                return 1
-        say(f"harness error: a worker process died but none of the {len(suspects)} scenarios in flight kills a process on its own")
-        sys.exit(2)
+    with ProcessPoolExecutor(max_workers=max(workers, 1), mp_context=mp.get_context("fork")) as ex:
+        outcomes = list(ex.map(_eval_one, range(len(docs)), chunksize=8))
+    for i, o in enumerate(outcomes):
+        if o[0] == "died":
+            sig = f"{prop}/watchdog/{docs[i]['scenario']['planner']['kind']}"
+            path = write_replay(prop, sig, docs[i]["scenario"])
+            say(f"VIOLATION property={prop} replay={path} sig={sig} count=1 :: scenario {i}: {o[1]}")
+            return 1
     for i, doc in enumerate(docs):
         scn = doc["scenario"]
         if outcomes[i][0] == "error":
@@ -891,14 +893,17 @@ def do_replay(path):
     os.makedirs(os.path.dirname(tmp), exist_ok=True)
     json.dump(scn, open(tmp, "w"))
     rust = json.loads(oxsim("run-json", tmp))
-    if "/watchdog/" in want:
-        why = _dies_alone(lambda: (eval_c19 if prop == "C19" else eval_c20)({"scenario": scn, "rust": rust}))
-        if why is not None:
-            say(f"VIOLATION property={prop} replay={path} sig={want} :: {why}")
+    out = _isolated(lambda: (eval_c19 if prop == "C19" else eval_c20)({"scenario": scn, "rust": rust}))
+    if out[0] == "died":
+        if "/watchdog/" in want:
+            say(f"VIOLATION property={prop} replay={path} sig={want} :: {out[1]}")
             return 1
-        say("replay did not reproduce " + want)
+        say(f"replay did not reproduce {want}: {out[1]}")
         return 2
-    r, _, _ = (eval_c19 if prop == "C19" else eval_c20)({"scenario": scn, "rust": rust})
+    if out[0] == "error":
+        say(f"harness error while replaying: {out[1]}")
+        return 2
+    r, _, _ = out[1]
     if r is not None and r[0] == want:
         say(f"VIOLATION property={prop} replay={path} sig={r[0]} :: {r[1]}")
         return 1
